@@ -106,12 +106,17 @@ func (o *storeHandler) getResource(r res.GetRequest) {
 
 	v, err := txn.Value()
 	if err != nil {
-		if errors.Is(err, ErrNotFound) && o.def != nil {
-			v = o.def
-		} else {
+		if !errors.Is(err, ErrNotFound) {
 			r.Error(err)
 			return
 		}
+		// The store may report a missing value with an error wrapping
+		// ErrNotFound, which should not be sent as an internal error.
+		if o.def == nil {
+			r.NotFound()
+			return
+		}
+		v = o.def
 	} else {
 		if o.trans != nil {
 			v, err = o.trans.Transform(id, v)
